@@ -266,7 +266,12 @@ def run_case(case, tier):
         return reject_case(case, rng, viol, counts, classes)
     if kind == "random":
         u = rng.random()
-        if u < 0.5:
+        if u < 0.08:
+            # two consecutive residues of one ionizable type numbered as insertion-code twins (one printed label)
+            from .c15 import same_label_twin_cutout
+            base = [r for r in same_label_twin_cutout(rng) if r.raw is not None or r.alt in (" ", "A")]
+            classes.append("same-label-twins")
+        elif u < 0.5:
             base = sources.random_small_structure(rng, 60, 700)
         elif u < 0.85:
             base, _ = sources.chimera(rng)
@@ -337,6 +342,11 @@ def run_case(case, tier):
         return util.finish(case, viol, counts, classes + ["emptied"], False, desc)
     text = pdbio.dump(recs)
     xo = util.neutral_options(rng, classes=classes)
+    if not sources.identities_unique(recs):
+        # tests/pdb/1HPX-warn.pdb repeats an atom record (two atoms on one position): such an input is
+        # run with default options only (building hydrogens on coinciding atoms is not a truncation issue)
+        xo = []
+        classes.append("input-with-repeated-atom-record")
     keep_pen = rng.random() < 0.15
     if keep_pen:
         # a parameter file that keeps penalised groups in the report: then nothing may be missing
